@@ -5,11 +5,33 @@
 -/
 import LibfiberVerif.Driver
 import LibfiberVerif.Model.Ring
+import LibfiberVerif.Model.Hp
+import LibfiberVerif.Model.Mpmc
+import LibfiberVerif.Model.Mpscr
+import LibfiberVerif.Model.Lifo
+import LibfiberVerif.Model.DistFifo
+import LibfiberVerif.Model.Stack
+import LibfiberVerif.Model.Sched
+import LibfiberVerif.Model.Mutex
+import LibfiberVerif.Model.Spin
+import LibfiberVerif.Model.WorkQueue
+import LibfiberVerif.Model.Wsd
 
 namespace LibfiberVerif
 
 def registry : List (String × (List String → IO UInt32)) := [
-  ("Ring", Ring.drive)
+  ("Ring", Ring.drive),
+  ("Hp", Hp.drive),
+  ("Mpmc", Mpmc.drive),
+  ("Mpsc", Mpsc.drive), ("Spsc", Spsc.drive), ("Mpscr", Mpscr.drive),
+  ("Lifo", Lifo.drive),
+  ("DistFifo", DistFifo.drive),
+  ("Stack", Stack.drive),
+  ("Sched", Sched.drive),
+  ("Mutex", Mutex.drive),
+  ("Spin", Spin.drive),
+  ("WorkQueue", WorkQueue.drive),
+  ("Wsd", Wsd.drive)
 ]
 
 end LibfiberVerif
